@@ -10,7 +10,7 @@ from harness.framework import Suite
 
 PID = "C18"
 LEAN_MODS = ["SwcVerif.Props.C18", "SwcVerif.Props.C05", "SwcVerif.Props.C18Gen"]
-TRANSLATE_ALGO = ["AlgoDsu"]          # Gen/AlgoDsu.lean is regenerated from swcgeom/utils/dsu.py on every run
+TRANSLATE_ALGO = ["AlgoDsu", "AlgoCheckers"]   # Gen/AlgoDsu.lean, Gen/AlgoCheckers.lean are regenerated from swcgeom/utils/dsu.py and swc_utils/base.py::get_dsu on every run
 DRIVER_FILES = ["SwcVerif/Model/AlgoRun.lean"]
 THEOREMS = [
     "C18.dsu_refines_partition", "C18.runOps_cons", "C18.invalid_rejected", "C18.hasCyclic_spec", "C18.isBifurcate_correct",
@@ -19,6 +19,7 @@ THEOREMS = [
     # refinement: the definitions generated from dsu.py on this run compute what the model computes (every script)
     "RefineDsu.find_refines", "RefineDsu.union_refines", "RefineDsu.same_refines", "RefineDsu.init_refines",
     "RefineDsu.script_refines", "RefineDsu.script_refines_init", "C18.generated_dsu_refines_partition",
+    "RefineCheckers.getDsu_refines", "C18.generated_getDsu_eq_model", "C18.generated_getDsu_total",
 ]
 TRUSTED = ["hand-written models Model/Dsu.lean of DisjointSetUnion, has_cyclic, is_bifurcate, get_dsu / is_single_root, mark_roots_as_somas_, "
            "link_roots_to_nearest_ (tied by the c18.* correspondence suites: union/find scripts, ALL parent tables with n ≤ 5, random larger ones, multi-root files)"]
@@ -205,6 +206,7 @@ class Checkers(Suite):
         a = f"ids={gen.ints(case['ids'])} pids={gen.ints(case['pids'])}"
         tf = lambda b: "T" if b else "F"
         out = [("singleroot " + a, tf(res["single_root"])), ("getdsu " + a, gen.ints(res["get_dsu"])),
+               ("ggetdsu " + a, gen.ints(res["get_dsu"])),     # the definition generated from get_dsu on this run (translator cross-check)
                ("issorted " + a, str(res["sorted"])), ("bifurcate excl=1 " + a, tf(res["bif1"])), ("bifurcate excl=0 " + a, tf(res["bif0"]))]
         if "cyclic" in res:
             out.append(("hascyclic " + a, tf(res["cyclic"])))
@@ -404,8 +406,9 @@ TECHNIQUE = ("Lean 4 theorems: the union-find model (path compression + union by
              "unions performed so far, for every operation history (invariant: ranks strictly increase along parent pointers; find preserves every root); "
              "has_cyclic / is_bifurcate / is_sorted / pointer-jumping / root-repair models characterised + differential correspondence on union/find scripts, "
              "ALL parent tables with n ≤ 5 and multi-root files + independent graph oracles; "
-             "the methods of dsu.py are additionally TRANSLATED to Lean on every run (harness/translate_algo.py → Gen/AlgoDsu.lean) and proved to refine the model on every script "
-             "(RefineDsu.script_refines_init, C18.generated_dsu_refines_partition); the generated definitions are also run against the real class")
+             "the methods of dsu.py and base.get_dsu are additionally TRANSLATED to Lean on every run (harness/translate_algo.py → Gen/AlgoDsu.lean, Gen/AlgoCheckers.lean) and proved to refine the models "
+             "(every script: RefineDsu.script_refines_init, C18.generated_dsu_refines_partition; every table, every fuel, failures included: RefineCheckers.getDsu_refines, C18.generated_getDsu_total); "
+             "the generated definitions are also run against the real code")
 LEVEL_TEXT = ("Kernel-checked for every history of unions and queries on n elements: is_same_set answers true exactly when the two elements are connected "
               "by the unions so far. Kernel-checked characterisations of has_cyclic (first row that joins two already connected nodes), is_bifurcate, "
               "is_sorted, of the pointer-jumping labelling (on EVERY forest, in any numbering, the loop stops within the modelled pass budget at the labelling 'root of my tree', so all labels are "
